@@ -1,0 +1,514 @@
+//go:build verif
+
+// Contracts for package main, read by /verif/bin/govc. This file contains only
+// comments; with the build tag off it is not part of any build.
+package main
+
+//@ ghost wr map[ref]int
+
+//@ hookset hasher
+//@ hook after (hash.Hash).Reset(h)
+//@   wr[h] = spec.HEmpty()
+//@ hook after (hash.Hash).Write(h, p) (n, err)
+//@   wr[h] = spec.HWriteS(wr[h], str(p))
+//@ hook after io.WriteString(w, s) (n, err)
+//@   wr[w] = spec.HWriteS(wr[w], s)
+//@ end
+
+//@ func hashWithCustomSalt
+//@   property C16 C12 C03
+//@   spec chars.smt2 hashstate.smt2
+//@   hooks hasher
+//@   requires len(salt) > 0 && name != ""
+//@   fact @init-nameBase64: spec.IsURLNoPad(nameBase64)
+//@   assigns sumBuffer, b64NameBuffer, ghost wr
+//@   deterministic @pure-function: in salt, flagSeed.bytes, name
+//@   ensures @hash-input: wr[hasher] == spec.HWriteS(spec.HWriteS(spec.HWriteS(spec.HEmpty(), old(str(salt))), old(str(flagSeed.bytes))), name)
+//@   ensures @length: 6 <= len(r0) && len(r0) <= 12
+//@   ensures @alphabet: forall i int :: 0 <= i && i < len(r0) ==> spec.IdentChar(r0[i])
+//@   ensures @first-not-digit: !spec.IsDigit(r0[0])
+//@   ensures @export-preserved: token.IsIdentifier(name) ==> (spec.IsUpper(r0[0]) <==> token.IsExported(name))
+//@   loop 0
+//@     invariant 0 <= i && i <= len(b64Name)
+//@     invariant forall j int :: 0 <= j && j < i ==> b64Name[j] != '-'
+//@     invariant forall j int :: 0 <= j && j < len(b64Name) ==> spec.B64URL(b64Name[j])
+//@     invariant !spec.IsDigit(b64Name[0])
+//@     invariant @functional: forall j int :: 0 <= j && j < len(b64Name) ==> b64Name[j] == ite(j < i && entry(b64Name[j]) == '-', 'a', entry(b64Name[j]))
+//@ end
+
+//@ func splitFlagsFromArgs
+//@   property C20
+//@   spec goflags.smt2
+//@   fact @table-booleanFlags: forall s string :: booleanFlags[s] == spec.GoBool(s)
+//@   assigns nothing
+//@   ensures @split-point: len(flags) == spec.GoSplit(all, 0)
+//@   ensures @flags-view: len(flags) > 0 ==> ref(flags) == ref(all) && off(flags) == off(all)
+//@   ensures @flags-cap: len(flags) < len(all) ==> cap(flags) == len(flags)
+//@   ensures @args-view: len(args) == len(all) - len(flags) && (len(args) > 0 ==> ref(args) == ref(all) && off(args) == off(all) + len(flags))
+//@   loop 0
+//@     invariant 0 <= i && i <= len(all) + 1
+//@     invariant spec.GoSplit(all, 0) == spec.GoSplit(all, i)
+//@ end
+
+//@ func hasHelpFlag
+//@   property C20
+//@   assigns nothing
+//@   ensures @iff: r0 <==> (exists k int :: 0 <= k && k < len(flags) && (flags[k] == "-h" || flags[k] == "-help" || flags[k] == "--help"))
+//@   loop 0
+//@     invariant forall j int :: 0 <= j && j < _i ==> !(flags[j] == "-h" || flags[j] == "-help" || flags[j] == "--help")
+//@ end
+
+//@ func splitFlagsFromFiles
+//@   property C20
+//@   assigns nothing
+//@   ensures @partition: len(flags) + len(paths) == len(all)
+//@   ensures @paths-are-files: forall k int :: 0 <= k && k < len(paths) ==> !strings.HasPrefix(paths[k], "-") && strings.HasSuffix(paths[k], ext)
+//@   ensures @last-flag: len(flags) > 0 ==> (strings.HasPrefix(flags[len(flags)-1], "-") || !strings.HasSuffix(flags[len(flags)-1], ext))
+//@   ensures @paths-view: len(paths) > 0 ==> ref(paths) == ref(all) && off(paths) == off(all) + len(flags)
+//@   ensures @flags-view: len(flags) > 0 ==> ref(flags) == ref(all) && off(flags) == off(all) && cap(flags) == len(flags)
+//@   loop 0
+//@     invariant -1 <= i && i < len(all)
+//@     invariant forall k int :: i < k && k < len(all) ==> !strings.HasPrefix(all[k], "-") && strings.HasSuffix(all[k], ext)
+//@ end
+
+//@ func filterForwardBuildFlags
+//@   property C20
+//@   spec goflags.smt2
+//@   fact @table-booleanFlags: forall s string :: booleanFlags[s] == spec.GoBool(s)
+//@   loop 0
+//@     invariant 0 <= i && i <= len(flags) + 1
+//@     invariant @parse-sync: i <= len(flags) ==> spec.IsNamePos(flags, i)
+//@ end
+
+//@ func flagSetValue
+//@   property C20 C02
+//@   ensures @len: len(r0) == len(flags) || len(r0) == len(flags) + 1
+//@   ensures @append-only-if-absent: len(r0) == len(flags) + 1 ==> r0[len(flags)] == name+"="+value && (forall j int :: 0 <= j && j < len(flags) ==> !strings.HasPrefix(old(flags[j]), name+"=") && old(flags[j]) != name)
+//@   ensures @in-place: len(r0) == len(flags) ==> ref(r0) == ref(flags) && off(r0) == off(flags)
+//@   ensures @eq-form-replaced: forall p int :: 0 <= p && p < len(flags) && strings.HasPrefix(old(flags[p]), name+"=") && (forall j int :: 0 <= j && j < p ==> !strings.HasPrefix(old(flags[j]), name+"=") && old(flags[j]) != name) ==> r0[p] == name+"="+value
+//@   ensures @space-form-replaced: forall p int :: 0 <= p && p+1 < len(flags) && old(flags[p]) == name && !strings.HasPrefix(old(flags[p]), name+"=") && (forall j int :: 0 <= j && j < p ==> !strings.HasPrefix(old(flags[j]), name+"=") && old(flags[j]) != name) ==> r0[p+1] == value
+//@   loop 0
+//@     invariant forall j int :: 0 <= j && j < _i ==> !strings.HasPrefix(flags[j], name+"=") && flags[j] != name
+//@     invariant forall j int :: 0 <= j && j < len(flags) ==> flags[j] == old(flags[j])
+//@ end
+
+// ---- C12: salting ----
+
+//@ hookset hasher
+//@ hook after fmt.Fprintf(w, format, a0) (n, err)
+//@   wr[w] = spec.HWriteS(wr[w], fmt.Sprintf(format, a0))
+//@ end
+
+//@ func (*listedPackages).get
+//@   pure
+//@   trusted lazily decodes and memoises the entry for a path; as a function of (l, path) it is a lookup
+
+//@ func (seedFlag).String
+//@   inline
+
+//@ func typeutil_hash
+//@   pure
+//@   trusted wrapper around typeutil_hasher.hash, whose struct case is verified under C15
+
+//@ func appendFlags
+//@   property C12 C06
+//@   spec hashstate.smt2 garbleflags.smt2
+//@   hooks hasher
+//@   assigns ghost wr
+//@   ensures @build-hash-flags: forBuildHash ==> wr[w] == spec.BuildFlags(old(wr[w]), flagLiterals, flagTiny, len(flagSeed.bytes) > 0, flagSeed.String(), flagControlFlow, literals.TestObfuscator)
+//@   ensures @child-flags: !forBuildHash ==> wr[w] == spec.ChildFlags(old(wr[w]), flagLiterals, flagTiny, flagDebug, flagDebugDir, len(flagSeed.bytes) > 0, flagSeed.String())
+//@ end
+
+//@ func addGarbleToHash
+//@   property C12 C06
+//@   spec hashstate.smt2 garbleflags.smt2
+//@   hooks hasher
+//@   requires sharedCache != nil
+//@   may_panic when len(sharedCache.BinaryContentID) == 0
+//@   assigns ghost wr
+//@   ensures @hash-input: wr[hasher] == spec.BuildFlags(spec.HWriteS(spec.HWriteS(spec.HWriteS(spec.HEmpty(), str(inputHash)), str(sharedCache.BinaryContentID)), fmt.Sprintf(" GOGARBLE=%s", sharedCache.GOGARBLE)), flagLiterals, flagTiny, len(flagSeed.bytes) > 0, flagSeed.String(), flagControlFlow, literals.TestObfuscator)
+//@   ensures @sum: forall j int :: 0 <= j && j < 32 ==> r0[j] == spec.ShaByte(wr[hasher], j)
+//@   deterministic @inputs: in inputHash, sharedCache.BinaryContentID, sharedCache.GOGARBLE, flagLiterals, flagTiny, flagSeed.bytes, flagControlFlow, literals.TestObfuscator
+//@ end
+
+//@ func hashWithPackage
+//@   property C12 C16
+//@   spec chars.smt2 hashstate.smt2
+//@   hooks hasher
+//@   requires name != "" && pkg != nil
+//@   fact @init-nameBase64: spec.IsURLNoPad(nameBase64)
+//@   assigns sumBuffer, b64NameBuffer, ghost wr
+//@   ensures @length: 6 <= len(r0) && len(r0) <= 12
+//@   ensures @alphabet: forall i int :: 0 <= i && i < len(r0) ==> spec.IdentChar(r0[i])
+//@   ensures @first-not-digit: !spec.IsDigit(r0[0])
+//@   ensures @export-preserved: token.IsIdentifier(name) ==> (spec.IsUpper(r0[0]) <==> token.IsExported(name))
+//@   ensures @seeded-hash-input: len(flagSeed.bytes) > 0 ==> wr[hasher] == spec.HWriteS(spec.HWriteS(spec.HWriteS(spec.HEmpty(), pkg.ImportPath+"|"), old(str(flagSeed.bytes))), name)
+//@   ensures @unseeded-hash-input: len(flagSeed.bytes) == 0 ==> wr[hasher] == spec.HWriteS(spec.HWriteS(spec.HWriteS(spec.HEmpty(), old(str(pkg.GarbleActionID[:]))), old(str(flagSeed.bytes))), name)
+//@   deterministic @function-of-seed-path-actionid-name: in flagSeed.bytes, pkg.ImportPath, pkg.GarbleActionID, name
+//@   deterministic @seeded-name-from-seed-path-name: when len(flagSeed.bytes) > 0 in flagSeed.bytes, pkg.ImportPath, name
+//@   deterministic @unseeded-name-from-action-id: when len(flagSeed.bytes) == 0 in flagSeed.bytes, pkg.GarbleActionID, name
+//@ end
+
+//@ func hashWithStruct
+//@   property C12 C15 C16
+//@   spec chars.smt2 hashstate.smt2 garbleflags.smt2
+//@   hooks hasher
+//@   requires field.Name() != "" && sharedCache != nil && len(sharedCache.BinaryContentID) > 0
+//@   fact @init-nameBase64: spec.IsURLNoPad(nameBase64)
+//@   assigns sumBuffer, b64NameBuffer, ghost wr
+//@   ensures @length: 6 <= len(r0) && len(r0) <= 12
+//@   ensures @alphabet: forall i int :: 0 <= i && i < len(r0) ==> spec.IdentChar(r0[i])
+//@   ensures @first-not-digit: !spec.IsDigit(r0[0])
+//@   ensures @export-preserved: token.IsIdentifier(field.Name()) ==> (spec.IsUpper(r0[0]) <==> token.IsExported(field.Name()))
+//@   deterministic @function-of-shape-name-and-garble-inputs: in flagSeed.bytes, typeutil_hash(strct), field.Name(), sharedCache.BinaryContentID, sharedCache.GOGARBLE, flagLiterals, flagTiny, flagControlFlow, literals.TestObfuscator
+//@   deterministic @seeded-field-from-seed-shape-name: when len(flagSeed.bytes) > 0 in flagSeed.bytes, typeutil_hash(strct), field.Name()
+//@   deterministic @unseeded-field-from-shape-and-garble-inputs: when len(flagSeed.bytes) == 0 in flagSeed.bytes, typeutil_hash(strct), field.Name(), sharedCache.BinaryContentID, sharedCache.GOGARBLE, flagLiterals, flagTiny, flagControlFlow, literals.TestObfuscator
+//@ end
+
+//@ func (*seedFlag).Set
+//@   property C12
+//@   ensures @accepted-has-8-bytes: r0 == nil ==> len(f.bytes) >= 8
+//@   ensures @rejected-keeps-seed: r0 != nil && old(s) != "random" ==> ref(f.bytes) == old(ref(f.bytes)) && len(f.bytes) == old(len(f.bytes))
+//@   ensures @random-is-8: old(s) == "random" && r0 == nil ==> len(f.bytes) == 8 && f.random
+//@ end
+
+// ---- C03: order assumptions (listed in evidence as unchecked) ----
+//@ order_insensitive main.computeFieldToStruct map-order#0 because every iteration only adds fieldToStruct[origin field] = struct entries keyed by the field; recordFieldToStruct panics if two structs claim one field, so the resulting map does not depend on the visiting order
+//@ order_insensitive main.(*reflectInspector).ignoreReflectedTypes map-order#0 because the pass only adds entries to the ReflectAPIs / ReflectObjectNames sets and is iterated to a fix-point by recordReflection; an order-dependent result was looked for (38 rebuilds, DESIGN section 12) and not found
+//@ order_insensitive ctrlflow.(*trashGenerator).cacheMethods map-order#0 because each iteration fills methodCache[type] once per distinct type from that type's own method set; the cache content is independent of the visiting order
+
+// ---- C15: struct identity hash ----
+
+//@ func (typeutil_hasher).hash
+//@   property C15
+//@   trusted bundled x/tools type hasher; only the dependency set of its struct case is an obligation here
+//@   case_calls *types.Struct: NumFields, Field, Anonymous, Name, typeutil_hashString
+//@ end
+
+// ---- C07: every cache reader treats an unreadable entry as a miss ----
+
+//@ ghost anyErr bool
+//@ ghost lastGetErr bool
+//@ ghost lastHasDep bool
+//@ ghost merged bool
+//@ ghost computeCalled bool
+
+//@ hookset cachemiss
+//@ hook after var:openCache() (c, err)
+//@   if err != nil { anyErr = true }
+//@ hook after (*github.com/rogpeppe/go-internal/cache.Cache).GetFile(c, id) (file, entry, err)
+//@   lastGetErr = err != nil
+//@   merged = false
+//@   if err != nil { anyErr = true }
+//@ hook after os.ReadFile(name) (data, err)
+//@   if err != nil { anyErr = true }
+//@ hook after (*mvdan.cc/garble.goAsmNames).UnmarshalMsg(z, b) (o, err)
+//@   if err != nil { anyErr = true }
+//@ hook after (*mvdan.cc/garble.listedPackage).hasDep(l, path) (r)
+//@   lastHasDep = r
+//@ hook before (*mvdan.cc/garble.pkgCache).CopyFrom(c, other)
+//@   merged = true
+//@ hook before mvdan.cc/garble.computePkgCache(a, b, c, d, e, f)
+//@   computeCalled = true
+//@   assert("recompute-only-after-a-miss", lastGetErr)
+//@ hook after value() (err)
+//@   assert("hit-is-merged", err != nil || lastGetErr || merged)
+//@   assert("missed-dependency-that-imports-reflect-is-recomputed-and-merged", err != nil || !lastGetErr || !lastHasDep || merged)
+//@ end
+
+//@ hookset hasher
+//@ hook after crypto/sha256.New() (h)
+//@   wr[h] = spec.HEmpty()
+//@ end
+
+//@ func loadGoAsmNames
+//@   property C07
+//@   hooks cachemiss
+//@   requires !anyErr
+//@   ensures @any-error-is-a-miss: anyErr ==> isnil(r0)
+//@ end
+
+//@ func loadDebugArtifactsForPkg
+//@   property C07
+//@   hooks cachemiss
+//@   assigns ghost lastGetErr, ghost merged, ghost anyErr
+//@   ensures @unreadable-entry-is-a-miss-not-an-error: lastGetErr ==> !r1 && r2 == nil
+//@ end
+
+//@ func debugArtifactsExistForPkg
+//@   property C07
+//@   hooks cachemiss
+//@   ensures @exists-iff-readable: r0 <==> !lastGetErr
+//@ end
+
+//@ func loadPkgCache
+//@   property C07
+//@   hooks cachemiss
+//@   requires !computeCalled && !anyErr && !lastGetErr
+//@   ensures @miss-recomputes: lastGetErr ==> computeCalled
+//@   ensures @hit-does-not-recompute: !lastGetErr ==> !computeCalled
+//@ end
+
+//@ func computePkgCache
+//@   property C07
+//@   hooks cachemiss
+//@   skip safety
+//@ end
+
+//@ func goAsmCacheID
+//@   property C06
+//@   spec hashstate.smt2
+//@   hooks hasher
+//@   ensures @key: forall j int :: 0 <= j && j < 32 ==> r0[j] == spec.ShaByte(spec.HWriteS(spec.HWriteS(spec.HEmpty(), old(str(garbleActionID[:]))), "\x00go-asm-names-v1\x00"), j)
+//@ end
+
+//@ func debugArtifactsCacheID
+//@   property C06
+//@   spec hashstate.smt2
+//@   hooks hasher
+//@   ensures @key: forall j int :: 0 <= j && j < 32 ==> r0[j] == spec.ShaByte(spec.HWriteS(spec.HWriteS(spec.HWriteS(spec.HEmpty(), old(str(garbleActionID[:]))), "\x00debugdir-cache-v1\x00"), kind), j)
+//@ end
+
+// ---- C19 / C17 / C18: garble writes and removes only what it owns ----
+// may[p]: this process may create, overwrite or remove p: it is (under) a directory made by
+// os.MkdirTemp here, or the -debugdir target after the ownership test.
+// marker[p]: os.Lstat(p) succeeded. envShared: the value of GARBLE_SHARED in this process.
+
+//@ ghost may map[string]bool
+//@ ghost marker map[string]bool
+//@ ghost envShared string
+//@ ghost parent map[string]string
+//@ ghost wroteOutsideOwned bool
+
+//@ hookset fs
+//@ hook after os.MkdirTemp(dir, pattern) (name, err)
+//@   if err == nil { may[name] = true }
+//@ hook after path/filepath.Join(a, b) (r)
+//@   parent[r] = a
+//@   if may[a] || marker[filepath.Join(a, ".garble-debugdir")] { may[r] = true }
+//@ hook after os.ReadDir(p) (entries, err)
+//@   if errors.Is(err, fs.ErrNotExist) || (err == nil && len(entries) == 0) { may[p] = true }
+//@ hook after os.Lstat(p) (fi, err)
+//@   if err == nil { marker[p] = true }
+//@ hook after os.Unsetenv(k) (err)
+//@   if k == "GARBLE_SHARED" { envShared = "" }
+//@ hook after os.Setenv(k, v) (err)
+//@   if k == "GARBLE_SHARED" { envShared = v }
+//@ hook after os.Getenv(k) (v)
+//@   if k == "GARBLE_SHARED" { assume(v == envShared) }
+//@ hook before os.RemoveAll(p)
+//@   assert("removes-only-what-this-process-owns", p == "" || may[p] || marker[filepath.Join(p, ".garble-debugdir")])
+//@ hook before os.Remove(p)
+//@   assert("removes-only-what-this-process-owns", may[p])
+//@ hook before os.MkdirAll(p, perm)
+//@   assert("creates-only-under-owned-directories", may[p] || marker[filepath.Join(p, ".garble-debugdir")])
+//@ hook before os.WriteFile(p, data, perm)
+//@   assert("writes-only-under-owned-directories", may[p] || may[parent[p]] || marker[filepath.Join(parent[p], ".garble-debugdir")])
+//@ hook before os.OpenFile(name, flag, perm)
+//@   assert("files-are-created-exclusively", flag == os.O_RDWR|os.O_CREATE|os.O_EXCL)
+//@   assert("creates-only-under-owned-directories", may[name])
+//@ hook before mvdan.cc/garble.writeFileExclusive(name, data)
+//@   assert("writes-only-under-owned-directories", may[name])
+//@ hook before mvdan.cc/garble.writeDebugDirFile(subdir, pkg, rel, content)
+//@   assert("debugdir-owned-before-use", may[flagDebugDir] || marker[filepath.Join(flagDebugDir, ".garble-debugdir")])
+//@ end
+
+//@ func createExclusive
+//@   property C17 C19
+//@   hooks fs
+//@   requires may[name]
+//@   assigns nothing
+//@ end
+
+//@ func writeFileExclusive
+//@   property C17 C19
+//@   hooks fs
+//@   requires may[name]
+//@   assigns nothing
+//@ end
+
+//@ func saveSharedCache
+//@   property C17 C18 C19
+//@   hooks fs
+//@   may_panic when sharedCache == nil
+//@   assigns ghost may, ghost parent
+//@   ensures @fresh-owned-dir: r1 == nil ==> may[r0]
+//@   ensures @may-only-grows: forall q string :: old(may[q]) ==> may[q]
+//@ end
+
+//@ func writeDebugDirFile
+//@   property C19
+//@   hooks fs
+//@   assigns ghost may, ghost parent
+//@   requires may[flagDebugDir] || marker[filepath.Join(flagDebugDir, ".garble-debugdir")]
+//@   ensures @may-only-grows: forall q string :: old(may[q]) ==> may[q]
+//@ end
+
+//@ func toolexecCmd
+//@   property C19 C18 C20 C02 C14
+//@   hooks fs
+//@   requires !anySelected
+//@   spec goflags.smt2
+//@   maxpaths 4000
+//@   assigns *, ghost may, ghost marker, ghost envShared, ghost parent
+//@   ensures @env-names-only-an-owned-dir: envShared == "" || may[envShared]
+//@ end
+
+//@ ghost linkPatched bool
+//@ ghost tinyEnvSet bool
+
+//@ hookset linkrun
+//@ hook after mvdan.cc/garble/internal/linker.PatchLinker(a, b, c, d) (p, u, err)
+//@   if err == nil { linkPatched = true }
+//@ hook before (*os/exec.Cmd).Run(cmd)
+//@   assert("patched-linker-runs-while-its-lock-is-held", !linkPatched || lockHeld)
+//@   assert("tiny-is-forwarded-to-the-patched-linker", !linkPatched || !flagTiny || tinyEnvSet)
+//@ hook after os.Setenv(k, v) (err)
+//@   if k == "GARBLE_LINK_TINY" && v == "true" { tinyEnvSet = true }
+//@ end
+
+//@ func mainErr
+//@   property C19 C17 C10
+//@   hooks fs linkrun linker
+//@   maxpaths 4000
+//@   requires !lockHeld && !everLocked && unlocks == 0 && !built && !stamped && !linkPatched && !anySelected
+//@   ensures @lock-released-once-after-the-link: linkPatched ==> !lockHeld && unlocks == 1
+//@   ensures @no-lock-leak: !lockHeld
+//@ end
+
+//@ func commandReverse
+//@   property C19
+//@   hooks fs
+//@   maxpaths 4000
+//@   skip safety call-requires
+//@ end
+
+//@ func commandMap
+//@   property C19
+//@   hooks fs
+//@   maxpaths 4000
+//@   skip safety call-requires
+//@ end
+
+//@ func (*transformer).writeSourceFile
+//@   property C19 C17 C02
+//@   hooks fs
+//@   requires may[sharedTempDir] && tf != nil && tf.curPkg != nil && tf.curPkg.ImportPath != ""
+//@   requires flagDebugDir != "" ==> may[flagDebugDir] || marker[filepath.Join(flagDebugDir, ".garble-debugdir")]
+//@ end
+
+//@ func restoreDebugArtifactsForPkg
+//@   property C19
+//@   hooks fs
+//@   requires may[flagDebugDir] || marker[filepath.Join(flagDebugDir, ".garble-debugdir")]
+//@   skip safety
+//@   loop 0
+//@     invariant may[flagDebugDir] || marker[filepath.Join(flagDebugDir, ".garble-debugdir")]
+//@   loop 1
+//@     invariant may[flagDebugDir] || marker[filepath.Join(flagDebugDir, ".garble-debugdir")]
+//@ end
+
+// ---- C14 / C01 / C13: what a package is called in the obfuscated build ----
+
+//@ func (*listedPackage).obfuscatedPackageName
+//@   property C14 C01 C13
+//@   spec chars.smt2 hashstate.smt2
+//@   hooks hasher
+//@   requires p != nil && p.Name != ""
+//@   assigns sumBuffer, b64NameBuffer, ghost wr
+//@   ensures @plain-package-keeps-its-name: !p.ToObfuscate ==> r0 == p.Name
+//@   ensures @main-keeps-its-name: p.Name == "main" ==> r0 == "main"
+//@   ensures @hashed-otherwise: p.ToObfuscate && p.Name != "main" ==> r0 == old(hashWithPackage(p, p.Name))
+//@ end
+
+//@ func (*listedPackage).obfuscatedSourceDir
+//@   property C14 C02 C13
+//@   spec chars.smt2 hashstate.smt2
+//@   hooks hasher
+//@   requires p != nil && p.ImportPath != ""
+//@   assigns sumBuffer, b64NameBuffer, ghost wr
+//@   ensures @hashed-directory: r0 == old(hashWithPackage(p, p.ImportPath))
+//@   ensures @plain-package-keeps-its-directory: [C14] !p.ToObfuscate ==> r0 == p.ImportPath
+//@ end
+
+//@ func (*listedPackage).obfuscatedImportPath
+//@   property C14 C01 C13 C02
+//@   spec chars.smt2 hashstate.smt2
+//@   hooks hasher
+//@   requires p != nil && p.ImportPath != ""
+//@   assigns sumBuffer, b64NameBuffer, ghost wr
+//@   ensures @main-is-main: p.Name == "main" && p.ForTest == "" ==> r0 == "main"
+//@   ensures @plain-package-keeps-its-path: !(p.Name == "main" && p.ForTest == "") && !p.ToObfuscate ==> r0 == p.ImportPath
+//@   ensures @toolchain-known-paths-kept: p.ImportPath == "runtime" || p.ImportPath == "reflect" || p.ImportPath == "embed" || has(compilerIntrinsics, p.ImportPath) || has(runtimeAndLinknamed, p.ImportPath) ==> r0 == p.ImportPath || r0 == "main"
+//@   ensures @hashed-otherwise: p.ToObfuscate && !(p.Name == "main" && p.ForTest == "") && !(p.ImportPath == "runtime" || p.ImportPath == "reflect" || p.ImportPath == "embed" || p.ImportPath == "internal/runtime/syscall/linux" || p.ImportPath == "internal/runtime/syscall/windows" || p.ImportPath == "internal/runtime/startlinetest" || has(compilerIntrinsics, p.ImportPath) || has(runtimeAndLinknamed, p.ImportPath)) ==> r0 == old(hashWithPackage(p, p.ImportPath))
+//@ end
+
+// ---- C14: GOGARBLE selects exactly which packages are obfuscated ----
+
+//@ ghost anySelected bool
+//@ ghost selPath string
+
+//@ hookset listing
+//@ hook before (*mvdan.cc/garble.listedPackages).set(l, path, p)
+//@   selPath = ite(p.ForTest != "", p.ForTest, p.ImportPath)
+//@   assert("selection-is-as-stated", p.ToObfuscate == (!runtimeAndDeps[selPath] && selPath != "runtime/cgo" && selPath != "crypto/internal/fips140" && !strings.HasPrefix(selPath, "crypto/internal/fips140/") && len(p.CompiledGoFiles) > 0 && ((p.Name == "main" && strings.HasSuffix(selPath, ".test")) || selPath == "command-line-arguments" || strings.HasPrefix(selPath, "plugin/unnamed") || module.MatchPrefixPatterns(sharedCache.GOGARBLE, selPath))))
+//@   assert("recorded-under-its-import-path", path == p.ImportPath)
+//@   if p.ToObfuscate { anySelected = true }
+//@ end
+
+//@ func (*listedPackages).set
+//@   trusted stores the entry in the map of listed packages
+//@   assigns listedPackages.entries
+
+//@ func (*listedPackages).has
+//@   pure
+//@   trusted map lookup (decoded entries or the index)
+
+//@ func appendListedPackages
+//@   property C14
+//@   hooks listing
+//@   maxpaths 4000
+//@   skip safety call-requires
+//@   requires !anySelected
+//@   assigns *, ghost anySelected, ghost selPath
+//@   ensures @no-match-is-an-error-not-a-plain-build: mainBuild && r0 == nil ==> anySelected || module.MatchPrefixPatterns(old(sharedCache.GOGARBLE), "runtime")
+//@   ensures @selected-only-grows: old(anySelected) ==> anySelected
+//@   loop 0
+//@     invariant anyToObfuscate ==> anySelected
+//@ end
+
+//@ func splitActionID
+//@   inline
+
+//@ func splitContentID
+//@   inline
+
+//@ func decodeBuildIDHash
+//@   property C06
+//@   assigns nothing
+//@   may_panic when true
+//@   ensures @fifteen-bytes: len(r0) == 15
+//@ end
+
+//@ func debugSince
+//@   inline
+
+//@ func linknamedToList
+//@   property C14
+//@   assigns nothing
+//@   skip safety
+//@ end
+
+//@ func (*sharedCacheType).MarshalMsg
+//@   trusted generated msgp encoder: appends to the buffer it is given, does not modify the value
+//@   assigns nothing
+//@ end
+
+// ---- C10: -tiny ----
+
+//@ func stripRuntime#stripPrints
+//@   property C10
+//@   skip safety call-requires
+//@   ensures @print-builtins-are-redirected: old(dyntypeis(node, *ast.CallExpr) && dyntypeis(node.(*ast.CallExpr).Fun, *ast.Ident) && (node.(*ast.CallExpr).Fun.(*ast.Ident).Name == "print" || node.(*ast.CallExpr).Fun.(*ast.Ident).Name == "println")) ==> node.(*ast.CallExpr).Fun.(*ast.Ident).Name == "hidePrint"
+//@   ensures @other-calls-are-kept: old(dyntypeis(node, *ast.CallExpr) && dyntypeis(node.(*ast.CallExpr).Fun, *ast.Ident) && node.(*ast.CallExpr).Fun.(*ast.Ident).Name != "print" && node.(*ast.CallExpr).Fun.(*ast.Ident).Name != "println") ==> node.(*ast.CallExpr).Fun.(*ast.Ident).Name == old(node.(*ast.CallExpr).Fun.(*ast.Ident).Name)
+//@ end
